@@ -8,10 +8,10 @@ package server
 //   C11  framing/size monitors run in simPeer's reader (all families)
 
 import (
-	"runtime"
 	"context"
 	"fmt"
 	"net/netip"
+	"runtime"
 	"sort"
 	"strings"
 	"sync"
@@ -791,7 +791,29 @@ func worldOp(w *simWorld, actor int, op *Op) {
 		}
 		c.r.setStalled(true)
 		w.probe("neighbour_stalled")
+		// a neighbour that does not read cannot be sent the Maximum-Prefixes NOTIFICATION (the
+		// write times out and the connection is closed): none is owed for a limit tripped while
+		// stalled, or tripped just before with the NOTIFICATION not yet arrived
+		p.mu.Lock()
+		p.stalled = true
+		if p.limitHit {
+			got := 0
+			for _, n := range p.notifs {
+				if n.Code == 6 && n.Sub == 1 {
+					got++
+				}
+			}
+			if got < p.limitTrips {
+				p.limitTrips--
+				p.limitMaybe++
+				w.probe("prefix_limit_notification_forgone")
+			}
+		}
+		p.mu.Unlock()
 		time.Sleep(time.Duration(op.N) * time.Millisecond)
+		p.mu.Lock()
+		p.stalled = false
+		p.mu.Unlock()
 		c.r.setStalled(false)
 	case "sleep":
 	default:
@@ -910,10 +932,11 @@ func worldCheck(w *simWorld, phase int) {
 				}
 				want, up := p.limitTrips, p.up
 				hit := p.limitHit
+				maybe := p.limitMaybe
 				p.mu.Unlock()
 				if got < want || (hit && up) {
 					w.violate("C02", "prefix-limit-not-enforced", fmt.Sprintf("p%d limit=%d", p.cfg.Idx, p.cfg.PrefixLimit), fmt.Sprintf("the Adj-RIB-In exceeded the limit %d time(s), %d Cease/Maximum-Prefixes NOTIFICATION(s) were received, session up=%v", want, got, up))
-				} else if got > want {
+				} else if got > want+maybe {
 					w.violate("C02", "prefix-limit-early", fmt.Sprintf("p%d limit=%d", p.cfg.Idx, p.cfg.PrefixLimit), fmt.Sprintf("%d Cease/Maximum-Prefixes NOTIFICATION(s) received, the model counts %d excess(es)", got, want))
 				}
 				if want > 0 {
@@ -1651,7 +1674,11 @@ func (w *simWorld) notePrefixLimit(p *simPeer, fam wFamily) {
 	}
 	if n > p.cfg.PrefixLimit && !p.limitHit {
 		p.limitHit = true
-		p.limitTrips++
+		if !p.stalled {
+			p.limitTrips++
+		} else {
+			p.limitMaybe++ // a short stall may end before the write of the NOTIFICATION times out
+		}
 		p.mu.Unlock()
 		w.probe("prefix_limit_exceeded")
 		return
